@@ -77,7 +77,9 @@ impl WorldExec {
         quiet_panics();
         *loader_faults() = (0, BTreeMap::new());
         assets_manager::verif::set_yield_hook(Some(yield_hook));
-        let known: Vec<u64> = HR_THREADS.lock().unwrap_or_else(|e| e.into_inner()).keys().copied().collect();
+        // thread ids only grow: the reloader thread of this cache is the first one above every id seen so far
+        // (a scan of all known ids under the lock starved the new thread once thousands of worlds had been created)
+        let known_max: u64 = HR_THREADS.lock().unwrap_or_else(|e| e.into_inner()).keys().next_back().copied().unwrap_or(0);
         let (local, via_any) = match frontend { "shared" => (false, false), "any" => (false, true), "local" => (true, false), _ => (true, true) };
         let src = MemSource::new(mode == "hot" || mode == "nohot-ctor");
         let (fe, has_reloader) = if local {
@@ -92,7 +94,7 @@ impl WorldExec {
         if has_reloader {
             let t0 = std::time::Instant::now();
             while hr_thread.is_none() && t0.elapsed().as_secs() < 10 {
-                hr_thread = HR_THREADS.lock().unwrap_or_else(|e| e.into_inner()).keys().copied().find(|k| !known.contains(k));
+                hr_thread = HR_THREADS.lock().unwrap_or_else(|e| e.into_inner()).range(known_max + 1..).next().map(|(k, _)| *k);
                 std::thread::yield_now();
             }
         }
